@@ -125,10 +125,10 @@ def make_motif(a, fs, rng):
         tgt = (d2, s)
     else:
         return []
-    sv = rng.choice([["-S", str(rng.randint(0, 3)), "-B", str(rng.randint(1, 4))], ["--test-kill-after-sync"],
+    sv = rng.choice([["-S", str(rng.randint(0, 3)), "-B", str(rng.randint(1, 4))], ["--test-kill-after-sync"], ["--test-kill-after-sync"],
                      ["-h", "-S", str(rng.randint(0, 3)), "-B", str(rng.randint(1, 4))], ["-S", "0", "-B", "1"]])
     steps.append(("cmd", "sync", ["-E", "-Z"] + sv))
-    second = rng.choice(["touch", "same-data-rewrite", "recreate-same-data", "none"])
+    second = rng.choice(["touch", "same-data-rewrite", "recreate-same-data", "recreate-same-data", "recreate-other-name", "none"])
     td, ts = tgt
     if second == "touch":
         steps.append(("fs", lambda: fs.set_mtime(td, ts) if ts in fs.entries[td] else None, "touch %r" % ts))
@@ -144,6 +144,13 @@ def make_motif(a, fs, rng):
             if scen._clear_path(fs, td, ts):
                 fs.write(td, ts, data)
         steps.append(("fs", f3, "recreate %r with the old data" % ts))
+    elif second == "recreate-other-name":
+        def f4():
+            nm = b"back-" + ts.split(b"/")[-1]
+            if scen._clear_path(fs, td, nm):
+                if first in ("delete",) or ts not in fs.entries[td]:
+                    fs.write(td, nm, data)
+        steps.append(("fs", f4, "old data of %r comes back under another name" % ts))
     if rng.random() < 0.5:
         steps.append(("cmd", "sync", ["-E", "-Z"] + rng.choice([[], ["-S", "0", "-B", "2"], ["-h"]])))
     steps.append(("cmd", "sync", ["-E", "-Z"]))
@@ -170,7 +177,7 @@ def run_history(case):
             nsteps_left -= 1
             probs = []
             k = rng.random()
-            if not pending and rng.random() < 0.12:
+            if not pending and rng.random() < 0.2:
                 pending = make_motif(a, fs, rng)
                 res["counters"]["motifs"] = res["counters"].get("motifs", 0) + (1 if pending else 0)
             scripted = pending.pop(0) if pending else None
